@@ -311,6 +311,88 @@ def set_cases():
     return out
 
 
+def set_tz_cases():
+    """sets whose DTSTART / RDATE / EXDATE values carry zone designators, under ignoretz / tzinfos / tzids"""
+    out = []
+    for dtform in ('Z', 'TZID', 'naive'):
+        for rdform in ('Z', '+0200', 'naive', None):
+            for xdform in ('Z', 'TZID', None):
+                for opt in (None, 'ignoretz', 'forceset'):
+                    for rule in (True, False):
+                        if not rule and rdform is None:
+                            continue
+                        out.append((dtform, rdform, xdform, opt, rule))
+    return out
+
+
+def eval_set_tz(case):
+    from dateutil.rrule import rrulestr, rruleset, rrule, DAILY
+    from dateutil import tz
+    warnings.simplefilter('ignore')
+    dtform, rdform, xdform, opt, rule = case
+    NY = zones.build(('gettz', rules.TZFILE_NAME))
+    UTC = tz.UTC
+    ignoretz = opt == 'ignoretz'
+
+    def val(form, dt):
+        """-> (text suffix or full line value, the datetime the keyword construction would use)"""
+        if form == 'Z':
+            return fmt_dt(dt) + 'Z', dt.replace(tzinfo=None if ignoretz else UTC)
+        if form == '+0200':
+            return fmt_dt(dt) + '+0200', dt.replace(tzinfo=None if ignoretz else tz.tzoffset(None, 7200))
+        return fmt_dt(dt), dt
+    lines = []
+    if dtform == 'TZID':
+        lines.append('DTSTART;TZID=%s:%s' % (rules.TZFILE_NAME, fmt_dt(D0)))
+        start = D0.replace(tzinfo=None if ignoretz else NY)
+    else:
+        t, start = val(dtform, D0)
+        lines.append('DTSTART:' + t)
+    aware = start.tzinfo is not None
+    mixed = False
+    exp = rruleset()
+    if rule:
+        lines.append('RRULE:FREQ=DAILY;COUNT=4')
+        exp.rrule(rrule(DAILY, count=4, dtstart=start))
+    if rdform is not None:
+        vals = [val(rdform, D0 + D.timedelta(days=9)), val(rdform, D0 + D.timedelta(days=1, hours=1))]
+        lines.append('RDATE:' + ','.join(v[0] for v in vals))
+        for v in vals:
+            exp.rdate(v[1])
+            mixed = mixed or ((v[1].tzinfo is not None) != aware and rule)
+    if xdform is not None:
+        if xdform == 'TZID':
+            lines.append('EXDATE;TZID=%s:%s' % (rules.TZFILE_NAME, fmt_dt(D0 + D.timedelta(days=1))))
+            x = (D0 + D.timedelta(days=1)).replace(tzinfo=None if ignoretz else NY)
+        else:
+            t, x = val(xdform, D0 + D.timedelta(days=2))
+            lines.append('EXDATE:' + t)
+        exp.exdate(x)
+        mixed = mixed or ((x.tzinfo is not None) != aware and (rule or rdform is not None))
+        if rdform is not None and not rule:
+            mixed = mixed or any((v[1].tzinfo is not None) != (x.tzinfo is not None) for v in vals)
+    if rdform is not None and not rule and len(set(v[1].tzinfo is not None for v in vals)) > 1:
+        mixed = True
+    text = '\n'.join(lines)
+    kw = {opt: True} if opt else {}
+    if mixed:
+        return Res(outcome='mixed-naive-aware-skipped', nontrivial=False)     # comparing naive with aware instants is undefined
+    try:
+        expected = list(exp)
+    except TypeError:
+        return Res(outcome='mixed-naive-aware-skipped', nontrivial=False)
+    try:
+        got = list(rrulestr(text, **kw))
+    except Exception as e:
+        return Res(viols=[{'kind': 'set-text-rejected', 'text': text, 'options': sorted(kw), 'error': repr(e)[:160]}])
+    viols = []
+    if got != expected or [g.tzinfo is None for g in got] != [e.tzinfo is None for e in expected] or \
+            [g.utcoffset() for g in got] != [e.utcoffset() for e in expected]:
+        viols.append({'kind': 'set-occurrences-differ', 'text': text, 'options': sorted(kw), 'got': got[:5], 'expected': expected[:5]})
+    return Res(trans=len(got) + 1, viols=viols, nontrivial=len(expected) >= 2,
+               sample={'text': text, 'options': sorted(kw)} if case == ('TZID', 'Z', 'TZID', 'ignoretz', True) else None)
+
+
 def eval_set(case):
     from dateutil.rrule import rrulestr, rruleset, rrule
     warnings.simplefilter('ignore')
@@ -434,6 +516,8 @@ def replay(part, case):
         return eval_roundtrip(case).viols
     if part.startswith('spell'):
         return eval_spelling(tuple(case)).viols
+    if part.startswith('sets-zones'):
+        return eval_set_tz(tuple(case)).viols
     if part.startswith('sets'):
         return eval_set(tuple(case)).viols
     return eval_malformed(case).viols
@@ -489,6 +573,7 @@ def run(ctx):
         cs = [(c, s) for c in base for s in sps]
     ctx.explore('spellings', cs, 'eval_spelling', chunk=64)
     ctx.explore('sets', set_cases(), 'eval_set', chunk=16)
+    ctx.explore('sets-zones', set_tz_cases(), 'eval_set_tz', chunk=16)
     ctx.explore('malformed', MALFORMED, 'eval_malformed', serial=True)
     ctx.coverage_extra.update({
         'bounds': {'roundtrip_k': k, 'spelling_rule_k': kr, 'spelling_deviation_k': ks, 'occurrences_compared': N_OCC},
